@@ -24,8 +24,8 @@ var ages = []int{150, 90, 30}
 var expiries = []int{0, 60, 120}
 
 type store struct {
-	Limit int   `json:"limit"`
-	Data  []dat `json:"-"`
+	Limit int      `json:"limit"`
+	Data  []dat    `json:"-"`
 	Desc  []string `json:"data(age_min/expiry_min)"`
 }
 
